@@ -166,7 +166,9 @@ def _run_system(unit, rec):
         _v(rec, "e", dict(base_sig, step="build", exc=type(e).__name__), "building the estimator raised %r" % (e,), dict(step="build"), script=B.script_est(spec))
         return
     rec.state(B.state_key(est))
-    variants = [True, False] if (names["K"] == "default" and names["baseline"] == "default") else [True]
+    # absolute capture ignores K and baseline: it is explored for the default system and for one system in which K and
+    # baseline are both non-trivial (so that using the wrong capture kind is visible)
+    variants = [True, False] if ((names["K"] == "default" and names["baseline"] == "default") or (names["K"] == "vector" and names["baseline"] != "default")) else [True]
     for relative in variants:
         Abar, c0, lo, hi = B.model_of(spec, relative)
         m, n = Abar.shape
